@@ -111,6 +111,7 @@ def gram_atol(method, means, noise=None, prior=(1.0, 0.1)):
     """64 eps max|x|^2 (DESIGN 1.6): forward error bound of the Gram-form formulas;
     per channel because everything is divided by P."""
     means = np.asarray(means, dtype=float)
+    means = np.where(np.isnan(means), np.nanmax(np.abs(means)) if np.any(~np.isnan(means)) else 1.0, means)
     if method == 'correlation':
         return 1e-10
     if method == 'poisson':
@@ -133,6 +134,7 @@ def pattern_spread_ok(means):
     """every mean pattern has a range over channels of at least 1/32 of the largest magnitude
     (unit-free; for data of magnitude 8 the range is >= 1/4): correlation stays well conditioned"""
     means = np.asarray(means, dtype=float)
+    means = means[~np.isnan(means).any(axis=1)] if means.ndim == 2 else means   # (missing samples)
     top = float(np.max(np.abs(means))) if means.size else 0.0
     return top > 0 and all(float(np.max(m) - np.min(m)) >= top / 32.0 for m in means)
 
